@@ -69,6 +69,13 @@ func (e *Engine) call(fr *Frame, st *State, ins ssa.Instruction, cc *ssa.CallCom
 			fn := v.Clo.Fn.(*ssa.Function)
 			return e.callFunc(fr, st, ins, fn, v.Clo.Bindings, cc, args, resType)
 		}
+		// a value of a named function type may have a contract under the type's name (agency.ApplyTxFunc)
+		if n, ok := cc.Value.Type().(*types.Named); ok && n.Obj().Pkg() != nil {
+			k := n.Obj().Pkg().Name() + "." + n.Obj().Name()
+			if c := e.db.Contracts[k]; c != nil {
+				return e.callByContract(fr, st, ins, c, k, cc, args, resType, false)
+			}
+		}
 		return e.defaultHavoc(fr, st, "func-value:"+cc.Value.Name(), cc, args, resType), nil
 	}
 }
@@ -112,6 +119,11 @@ func (e *Engine) callFunc(fr *Frame, st *State, ins ssa.Instruction, fn *ssa.Fun
 	key := funcKey(fn)
 	if v, ok := e.intrinsic(fr, st, ins, key, fn, args, resType); ok {
 		return v, nil
+	}
+	if key == "retry.Retry" && len(args) >= 1 && args[0].Clo != nil {
+		if _, has := e.db.Contracts[key]; !has {
+			return e.retryModel(fr, st, args, resType)
+		}
 	}
 	if key == "sort.Search" && len(args) == 2 && args[1].Clo != nil {
 		if v, sts, ok := e.sortSearch(fr, st, args); ok {
@@ -255,6 +267,7 @@ func (e *Engine) paramNames(c *Contract, sig *types.Signature, invoke bool) []st
 
 func (e *Engine) callByContract(fr *Frame, st *State, ins ssa.Instruction, c *Contract, key string, cc *ssa.CallCommon, args []Val, resType types.Type, invoke bool) (Val, []*State) {
 	e.usedSpecs[key] = true
+	e.callFrame = fr
 	e.curCallee = nil
 	if !invoke {
 		e.curCallee = cc.StaticCallee()
@@ -454,8 +467,10 @@ func (e *Engine) havocItem(st *State, env *SpecEnv, item string) {
 	switch {
 	case item == "*":
 		restore := e.spareForCallee(st, e.curCallee)
+		restoreP := e.sparePrivate(st)
 		st.havocAll()
 		restore()
+		restoreP()
 		return
 	case item == "big":
 		st.havocKey("BigVal")
@@ -497,8 +512,10 @@ func (e *Engine) havocItem(st *State, env *SpecEnv, item string) {
 			}
 		}
 		restore := e.spareForCallee(st, e.curCallee)
+		restoreP := e.sparePrivate(st)
 		st.havocAll()
 		restore()
+		restoreP()
 		for k, v := range keepH {
 			st.heap[k] = v
 		}
@@ -618,8 +635,10 @@ func (e *Engine) havocItem(st *State, env *SpecEnv, item string) {
 				}
 			} else {
 				restore := e.spareForCallee(st, e.curCallee)
+				restoreP := e.sparePrivate(st)
 				st.havocAll()
 				restore()
+				restoreP()
 			}
 		default:
 			unsupp("modifies item %q", item)
@@ -1039,4 +1058,32 @@ func (e *Engine) sortSearch(fr *Frame, st *State, args []Val) (Val, []*State, bo
 	st.assume(Implies(Gt(idx, IntLit(0)), Implies(And(sB2.pc[len(sB.pc):]...), Not(r2))))
 	e.note("sort.Search modelled by its exact characterisation (idx==n or f(idx)) and (idx==0 or !f(idx-1)); the predicate is assumed pure")
 	return scalar(idx), nil, true
+}
+
+// retryModel: retry.Retry(action, strategies...) runs action until it returns nil or a strategy says stop and
+// returns the error of the last run. Modelled as: everything the action may write is forgotten (the earlier
+// runs), then the action runs once more and its error is the result. Assumes the strategies allow the first
+// attempt (true for strategy.Limit(n>0) and strategy.Wait, the ones used in /repo).
+func (e *Engine) retryModel(fr *Frame, st *State, args []Val, resType types.Type) (Val, []*State) {
+	clo := args[0].Clo
+	cfn := clo.Fn.(*ssa.Function)
+	ws := newWriteSet()
+	sub := &Frame{fn: cfn, cellOf: map[*ssa.Alloc]int{}, free: clo.Bindings}
+	e.blocksWrites(sub, cfn.Blocks, ws, fr.depth+1, map[*ssa.Function]bool{cfn: true})
+	if ws.all {
+		restore := e.spareForWrites(st, ws)
+		st.havocAll()
+		restore()
+	}
+	for k := range ws.keys {
+		st.havocKey(k)
+	}
+	for c := range ws.cells {
+		if old, ok := st.cells[c]; ok {
+			st.cells[c] = e.havocVal(st, old, e.cellType(fr, c))
+		}
+	}
+	attempt := st.freshVal("attempt", cfn.Signature.Params().At(0).Type())
+	e.note("retry.Retry modelled as: earlier attempts forgotten, one last attempt whose error is returned (assumes the strategies allow a first attempt)")
+	return e.inline(fr, st, cfn, clo.Bindings, nil, []Val{attempt}, resType)
 }
